@@ -103,9 +103,11 @@ func (r *Value) Pull(ctx context.Context, opts ...ReadOption) <-chan *ValueChang
 	go func() {
 		defer close(typedEvents)
 
+		last := currentValue
 		if currentValue != nil {
 			change := &ValueChange{Value: currentValue, ChangeTime: changeTime, SeedValue: true, LastSeedValue: true}
 			change = change.filter(filter)
+			last = change.Value // compare later events with what the subscriber was actually sent
 			select {
 			case <-ctx.Done():
 				return // give up sending
@@ -113,7 +115,6 @@ func (r *Value) Pull(ctx context.Context, opts ...ReadOption) <-chan *ValueChang
 			}
 		}
 
-		last := currentValue
 		for event := range on {
 			change := event.(*ValueChange).filter(filter)
 			if r.equivalence != nil && r.equivalence.Compare(last, change.Value) {
